@@ -2,6 +2,7 @@ package props
 
 import (
 	"bufio"
+	"bytes"
 	"fmt"
 
 	"github.com/mandykoh/prism/meta/binary"
@@ -101,6 +102,22 @@ func (c17) Run(t *tape.Tape, st *Stats) *Violation {
 			p, err = md.ICCProfile()
 		}
 	}()
+	// a third of the runs read another profile (and ask for its description)
+	// between reading this one and asking for its description: what Description()
+	// returns must come from this profile's bytes, whatever the package did since
+	interposed := t.Intn(3) == 0
+	iseed := t.Draw(1 << 40)
+	if interposed && p != nil {
+		func() {
+			defer func() { recover() }()
+			other := refmodel.DrawICC(tape.New(iseed, nil), refmodel.ICCOpts{})
+			if q, e := icc.NewProfileReader(bufio.NewReader(bytes.NewReader(other.Bytes))).ReadProfile(); e == nil && q != nil {
+				q.Description()
+			}
+		}()
+		how += ", another profile read before Description()"
+	}
+	st.Probe("another_profile_read_before_Description", interposed && p != nil)
 	st.VerdictOrderDependent = len(prof.Records) > 1
 	st.Class(fmt.Sprintf("route%d:%s:%s", route, container, prof.DescKind))
 	deliveryStats(st, src)
@@ -127,7 +144,7 @@ func (c17) Run(t *tape.Tape, st *Stats) *Violation {
 			"acceptable_descriptions": acc, "got_descriptions(distinct)": got, "read_error": fmt.Sprint(err), "profile_hex": hex(prof.Bytes, 700)}
 	}
 	fail := func(class, detail string) *Violation {
-		return &Violation{Class: class, Sig: class + ":" + prof.DescKind, Detail: detail + " [" + prof.Summary + " via " + how + "]", Render: render()}
+		return &Violation{Class: class, Sig: class + ":" + prof.DescKind, Detail: detail + " [" + prof.Summary + " via " + how + "]", Render: render(), OwnHistory: interposed}
 	}
 	defer func() {
 		if st.WantSample() {
